@@ -359,10 +359,29 @@ fn welcome_case(name: &str, muts: &[u8], rep: &mut CaseReport) -> Result<(), Fai
     for (i, m) in muts.iter().enumerate() {
         let t: Vec<Tag> = rumor.tags.iter().cloned().collect();
         let mut r = rumor.clone();
-        let what: &str = match m % 7 {
+        let what: &str = match m % 10 {
             0 => {
                 r.tags = drop_tag(&t, "encoding").into_iter().collect();
                 "missing encoding tag"
+            }
+            7 => {
+                // two encoding tags that disagree: which one counts is anybody's guess
+                let mut tt = vec![Tag::custom(TagKind::custom("encoding"), ["hex"])];
+                tt.extend(t.iter().cloned());
+                r.tags = tt.into_iter().collect();
+                "a hex encoding tag ahead of the base64 one"
+            }
+            8 => {
+                let mut tt = t.clone();
+                tt.push(Tag::custom(TagKind::custom("encoding"), ["hex"]));
+                r.tags = tt.into_iter().collect();
+                "a hex encoding tag after the base64 one"
+            }
+            9 => {
+                let mut tt = t.clone();
+                tt.push(Tag::custom(TagKind::custom("encoding"), Vec::<String>::new()));
+                r.tags = tt.into_iter().collect();
+                "a value-less encoding tag beside the base64 one"
             }
             1 => {
                 r.tags = set_tag(&t, "encoding", "hex").into_iter().collect();
@@ -519,7 +538,7 @@ pub fn main(args: &Args) -> i32 {
     let spec = Spec {
         id: "C15",
         level: "exploration",
-        rule: "four generated families. (1) group-data extension values (any UTF-8 name/description incl. empty, NUL, multi-byte, long; 0..n admins and relays; all 16 presence patterns of the four image fields; versions 1..65535): library encoding equals an independent encoder of the documented layout, decode(encode(v)) = v, and each single-field mutation (appended bytes, truncation, version 0, non-UTF-8 name/description/relay, invalid relay URL, image field lengths other than 0 or the fixed one, over-long length prefix, ragged admin vector) is refused. (2) key-package events over relay lists / protected flag: a second client parses them to the same reference and identity; each listed ambiguity (missing / hex encoding tag, hex content, foreign or missing i tag, foreign author, wrong protocol / ciphersuite / extensions tags, wrong kind, missing relays) is refused. (3) welcome rumors of real create_group calls: the joiner's preview equals the inviter's group data; missing / hex encoding tag, hex content, wrong kind, missing relays / e tag, truncation are refused. (4) imeta tags over MIME families, file names and sizes: parse(create(u)) equals the reference; wrong-length or non-hex x / n, unknown or missing v, missing x / n are refused. Non-trivial = every case that reached its round trip; distinct = distinct cases".into(),
+        rule: "four generated families. (1) group-data extension values (any UTF-8 name/description incl. empty, NUL, multi-byte, long; 0..n admins and relays; all 16 presence patterns of the four image fields; versions 1..65535): library encoding equals an independent encoder of the documented layout, decode(encode(v)) = v, and each single-field mutation (appended bytes, truncation, version 0, non-UTF-8 name/description/relay, invalid relay URL, image field lengths other than 0 or the fixed one, over-long length prefix, ragged admin vector) is refused. (2) key-package events over relay lists / protected flag: a second client parses them to the same reference and identity; each listed ambiguity (missing / hex encoding tag, hex content, foreign or missing i tag, foreign author, wrong protocol / ciphersuite / extensions tags, wrong kind, missing relays) is refused. (3) welcome rumors of real create_group calls: the joiner's preview equals the inviter's group data; missing / hex / second disagreeing or value-less encoding tag, hex content, wrong kind, missing relays / e tag, truncation are refused. (4) imeta tags over MIME families, file names and sizes: parse(create(u)) equals the reference; wrong-length or non-hex x / n, unknown or missing v, missing x / n are refused. Non-trivial = every case that reached its round trip; distinct = distinct cases".into(),
         assumptions: vec![
             "the reference encoder follows TLS presentation language with RFC 9420 variable-length integers (as tls_codec does)".into(),
             "trailing bytes after the TLS structure inside key-package / welcome content are measured by C06's mutants but not judged here: only the extension parser documents a trailing-byte check".into(),
@@ -559,7 +578,7 @@ pub fn main(args: &Args) -> i32 {
             prop_oneof![
                 12 => (ext, prop::collection::vec(ext_mut.clone(), 0..6)).prop_map(|(v, muts)| Case::Extension { v, muts }),
                 2 => (prop::collection::vec(any::<u8>(), 0..5), any::<bool>(), prop::collection::vec(any::<u8>(), 0..8)).prop_map(|(relays, protected, muts)| Case::KeyPackage { relays, protected, muts }),
-                2 => ("[ -~]{0,30}", prop::collection::vec(0u8..7, 0..5)).prop_map(|(name, muts)| Case::Welcome { name, muts }),
+                2 => ("[ -~]{0,30}", prop::collection::vec(0u8..10, 0..5)).prop_map(|(name, muts)| Case::Welcome { name, muts }),
                 2 => (0u8..5, prop_oneof![3 => "[a-zA-Z0-9 _.\\-]{1,40}", 1 => "\\PC{1,30}"], 0u16..3000, prop::collection::vec(0u8..11, 0..5)).prop_map(|(mime, filename, size, muts)| Case::Imeta { mime, filename, size, muts }),
             ]
         },
